@@ -6,6 +6,7 @@ the NEW start and is `>= 0`, kept captions appended in order, nodes untouched;
 merged captions, first caption's times.  NOT decided: maximality of runs, idempotence.
 """
 import ast
+import re
 
 from ..core.tree import AnalysisError
 from ..core.constfold import Folder
@@ -64,7 +65,16 @@ def retime_effects(ctx, report):
 
 
 def retime(ctx, report, folder):
-    fn = ctx.index.get_function(BASE, "CaptionSet.adjust_caption_timing")
+    top = ctx.index.get_function(BASE, "CaptionSet.adjust_caption_timing")
+    report.covered(top)
+    # the routine that holds the re-timing loop: adjust_caption_timing itself or a private helper it calls
+    from ..core.astutil import closure
+    holders = [f for f in closure(ctx.index, top) if any(
+        isinstance(n, ast.For) and any(isinstance(s_, ast.Assign) and isinstance(s_.targets[0], ast.Attribute)
+                                       and s_.targets[0].attr == "start" for s_ in n.body) for n in walk_no_nested(f.node))]
+    if len(holders) != 1:
+        raise AnalysisError(f"adjust_caption_timing: loop that re-times captions not found ({len(holders)} candidates)")
+    fn = holders[0]
     report.covered(fn)
     ev = SymEvaluator(ctx.index, folder)
     stores = {}
@@ -126,11 +136,23 @@ def retime(ctx, report, folder):
             and n.func.attr in ("insert", "sort", "reverse", "pop", "remove") ]
     report.check(not bad, "R-APPEND-ORDER", fn, "nodes untouched; surviving captions appended in iteration order",
                  {"offending": bad} if bad else None, "1")
-    sc = [c for c in walk_no_nested(fn.node) if isinstance(c, ast.Call) and call_name(c) == "self.set_captions"]
-    ok = len(sc) == 1 and len(sc[0].args) == 2 and src(sc[0].args[0]) in [src(n.target) for n in walk_no_nested(fn.node)
-                                                                     if isinstance(n, ast.For)]
-    report.check(ok, "R-FIELD-ROUTING", fn, "the re-timed list replaces the list of the same language",
-                 [short(c) for c in sc], "1")
+    sc = [c for c in walk_no_nested(top.node) if isinstance(c, ast.Call) and call_name(c) == "self.set_captions"]
+    ok = len(sc) == 1 and len(sc[0].args) == 2 and src(sc[0].args[0]) in [src(n.target) for n in walk_no_nested(top.node)
+                                                                          if isinstance(n, ast.For)]
+    # ... and what is stored is the list the kept captions were appended to
+    kept_list = None
+    for c in walk_no_nested(keep[0]):
+        if isinstance(c, ast.Call) and isinstance(c.func, ast.Attribute) and c.func.attr == "append":
+            kept_list = src(c.func.value)
+    if ok:
+        stored = src(resolve_local(top, sc[0].args[1], keep=(kept_list,)))
+        if fn is top:
+            ok = stored == kept_list
+        else:
+            rets = [src(n.value) for n in walk_no_nested(fn.node) if isinstance(n, ast.Return) and n.value is not None]
+            ok = rets == [kept_list] and re.search(r"\b" + re.escape(fn.name) + r"\(", stored) is not None
+    report.check(ok, "R-FIELD-ROUTING", top, "the re-timed list replaces the list of the same language",
+                 {"set_captions": [short(c) for c in sc], "kept_captions_collected_in": kept_list}, "1")
 
 
 def merging(ctx, report):
